@@ -353,12 +353,14 @@ func (w *fsWallet) loadWalletFile(ctx context.Context, addr ethtypes.Address0xHe
 }
 
 func (w *fsWallet) getKeyAndPasswordFiles(ctx context.Context, addr ethtypes.Address0xHex, primaryFilename string, primaryFile []byte) (kf string, pf string, err error) {
-	if strings.ToLower(w.conf.Metadata.Format) == "auto" {
-		w.conf.Metadata.Format = strings.TrimPrefix(w.conf.Filenames.PrimaryExt, ".")
+	// Resolve "auto" into a local: the configuration is shared by concurrent signers and must not be written here
+	metadataFormat := w.conf.Metadata.Format
+	if strings.ToLower(metadataFormat) == "auto" {
+		metadataFormat = strings.TrimPrefix(w.conf.Filenames.PrimaryExt, ".")
 	}
 
 	var metadata map[string]interface{}
-	switch w.conf.Metadata.Format {
+	switch metadataFormat {
 	case "toml", "tml":
 		err = toml.Unmarshal(primaryFile, &metadata)
 	case "json":
@@ -379,7 +381,7 @@ func (w *fsWallet) getKeyAndPasswordFiles(ctx context.Context, addr ethtypes.Add
 		return primaryFilename, path.Join(passwordPath, passwordFilename), nil
 	}
 	if err != nil {
-		log.L(ctx).Errorf("Failed to parse '%s' as %s: %s", primaryFilename, w.conf.Metadata.Format, err)
+		log.L(ctx).Errorf("Failed to parse '%s' as %s: %s", primaryFilename, metadataFormat, err)
 		return "", "", i18n.NewError(ctx, signermsgs.MsgWalletFailed, addr)
 	}
 
